@@ -116,6 +116,9 @@ pub fn run_child(spec: &Spec) -> ChildRun {
         .env("RUST_BACKTRACE", "0")
         .current_dir(&dir)
         .stderr(Stdio::from(errf));
+    if let Some(v) = &spec.child.rust_log {
+        cmd.env("RUST_LOG", v);
+    }
 
     let mut master: Option<OwnedFd> = None;
     let mut slave_keep: Option<OwnedFd> = None;
